@@ -185,6 +185,20 @@ def stub_dir():
     global STUB_DIR
     if STUB_DIR and os.path.isdir(STUB_DIR):
         return STUB_DIR
+    fixed = os.environ.get('VT_STUB_DIR')
+    if fixed:
+        # a stable location shared by several processes (cache experiments need stable file names)
+        os.makedirs(fixed, exist_ok=True)
+        for name, text in (('GLib-2.0.gir', GLIB_STUB), ('GObject-2.0.gir', GOBJECT_STUB), ('Gio-2.0.gir', GIO_STUB)):
+            pth = os.path.join(fixed, name)
+            if not os.path.exists(pth):
+                tmp = pth + '.%d.tmp' % os.getpid()
+                with open(tmp, 'w') as f:
+                    f.write(text)
+                os.utime(tmp, (1000000000, 1000000000))
+                os.replace(tmp, pth)
+        STUB_DIR = fixed
+        return fixed
     d = tempfile.mkdtemp(prefix='vt-stubgir-')
     for name, text in (('GLib-2.0.gir', GLIB_STUB), ('GObject-2.0.gir', GOBJECT_STUB), ('Gio-2.0.gir', GIO_STUB)):
         with open(os.path.join(d, name), 'w') as f:
